@@ -264,7 +264,8 @@ fn src_scalar(doc: &[u8]) -> Option<(&'static str, String)> {
         YamlString::DoubleQuoted { .. } => "d",
         YamlString::SingleQuoted { .. } => "s",
         YamlString::Unquoted { .. } => "u",
-        _ => "b",
+        YamlString::BlockLiteral { .. } => "l",
+        YamlString::BlockFolded { .. } => "f",
     };
     let dec = s.as_str().ok()?.into_owned();
     Some((st, dec))
@@ -389,7 +390,28 @@ fn folded_keep_only(doc: &[u8], got: &str, want: &str) -> bool {
         o.push_str(rest);
         o
     }
-    String::from_utf8_lossy(doc).contains(">+") && got != want && squash(got) == squash(want)
+    let d = String::from_utf8_lossy(doc);
+    let has_folded_keep = d.match_indices('>').any(|(i, _)| {
+        let r = d[i + 1..].as_bytes();
+        r.first() == Some(&b'+') || (r.first().is_some_and(u8::is_ascii_digit) && r.get(1) == Some(&b'+'))
+    });
+    has_folded_keep && got != want && squash(got) == squash(want)
+}
+
+/// The document has a block scalar with an explicit indentation indicator as an item of a compact
+/// nested sequence (`- - |2`): the loader takes the indicator relative to the line's first dash
+/// instead of the inner sequence's (loader-side defect, C14 domain), so such a value does not
+/// survive any re-emission.
+fn nested_seq_indicator(doc: &[u8]) -> bool {
+    String::from_utf8_lossy(doc).split('\n').any(|line| {
+        let l = line.trim_start();
+        if !(l.starts_with("- - ") || l.starts_with("- -\t")) {
+            return false;
+        }
+        let h = l.trim_start_matches(|c| c == '-' || c == ' ');
+        let h = h.split(' ').next().unwrap_or("");
+        (h.starts_with('|') || h.starts_with('>')) && h.bytes().any(|b| b.is_ascii_digit())
+    })
 }
 
 fn is_pure_path(prog: &str) -> bool {
@@ -403,6 +425,9 @@ fn cli_loop(doc: &[u8], prog: &str, indent: usize) -> String {
         // clap rejects --indent outside 0..=7: no YAML is printed at all
         let (rc1, y_out, _) = run_cli(&["yq", "-I", &ind, prog], doc);
         return if rc1 != 0 && y_out.is_empty() { "LOOP-OK".into() } else { "LOOP-FAIL indent-range-accepted".into() };
+    }
+    if rc2 == -1 {
+        return "LOOP-FAIL no-cli (binary missing or not executable)".into();
     }
     if rc2 != 0 {
         return "SKIP-ERR".into();
@@ -432,7 +457,13 @@ fn cli_loop(doc: &[u8], prog: &str, indent: usize) -> String {
     if got == want {
         "LOOP-OK".into()
     } else {
-        let tag = if folded_keep_only(doc, &got, &want) { "folded-keep-extra-break" } else { tag };
+        let tag = if folded_keep_only(doc, &got, &want) {
+            "folded-keep-extra-break"
+        } else if nested_seq_indicator(doc) {
+            "nested-seq-indicator"
+        } else {
+            tag
+        };
         format!(
             "LOOP-FAIL {tag} out={} got={} want={}",
             hex_bytes(&y_out[..y_out.len().min(300)]),
@@ -578,6 +609,34 @@ pub fn exec(a: &[&str]) -> String {
             format!("{r} {v}")
         }
         "ind" => cli_indent_probe(num(a[1])),
+        // sbl <hexdoc> <indent> <style l|f> <hexdecoded>: the block-scalar arm of stream_yaml_value on
+        // the document `k: <block scalar>\nc: after`; literal: emitted header+body and re-read verdict,
+        // folded: the header line (or the quoted fallback) only
+        "sbl" => {
+            let doc = parse_bytes(a[1]);
+            let Some((st, dec)) = src_scalar(&doc) else { return "SKIP-INVALID".into() };
+            if st != a[3] || hex_bytes(dec.as_bytes()) != a[4] {
+                return format!("BAD-REQ st={st} dec={}", hex_bytes(dec.as_bytes()));
+            }
+            let out = match stream_doc(&doc, num(a[2])) {
+                Ok(o) => o,
+                Err(e) => return format!("STREAM-ERR {e}"),
+            };
+            let Some(x) = out.strip_prefix("k: ").and_then(|s| s.strip_suffix("\nc: after\n")) else {
+                return format!("UNEXPECTED out={}", hex_bytes(out.as_bytes()));
+            };
+            if st == "f" {
+                let shown = if x.starts_with('>') { x.split('\n').next().unwrap_or("") } else { x };
+                return hex_bytes(shown.as_bytes());
+            }
+            let want = load_json(&doc).unwrap_or_default();
+            let v = match load_json(out.as_bytes()) {
+                Ok(j) if j == want => "REREAD-OK".to_string(),
+                Ok(j) => format!("REREAD-FAIL got={}", hex_bytes(j.trim_end().as_bytes())),
+                Err(e) => format!("REREAD-FAIL got=error:{}", e.replace(' ', "_")),
+            };
+            format!("{} {v}", hex_bytes(x.as_bytes()))
+        }
         // sloop <hexdoc> <indent>
         "sloop" => {
             let doc = parse_bytes(a[1]);
@@ -593,7 +652,13 @@ pub fn exec(a: &[&str]) -> String {
                 Ok(got) if got == want => "LOOP-OK".into(),
                 Ok(got) => format!(
                     "LOOP-FAIL {} out={} got={} want={}",
-                    if folded_keep_only(&doc, &got, &want) { "folded-keep-extra-break" } else { "value" },
+                    if folded_keep_only(&doc, &got, &want) {
+                        "folded-keep-extra-break"
+                    } else if nested_seq_indicator(&doc) {
+                        "nested-seq-indicator"
+                    } else {
+                        "value"
+                    },
                     hex_bytes(out.as_bytes()),
                     hex_bytes(got.as_bytes()),
                     hex_bytes(want.as_bytes())
@@ -804,27 +869,9 @@ impl<'a> DocGen<'a> {
             }
             _ => {
                 // block scalars
-                let pad = " ".repeat(ind + 2);
-                let head = *self.r.pick(&["|", "|-", "|+", ">", ">-", ">+"]);
-                let body: Vec<&str> = match self.r.below(6) {
-                    0 => vec!["0x1F"],
-                    1 => vec!["line one", "line two"],
-                    2 => vec!["a", "", "b"],
-                    3 => vec!["x: y", "# not a comment"],
-                    4 => vec!["tail ", "z"],
-                    _ => vec!["p", "  q", "r"],
-                };
-                self.out.push_str(head);
-                for l in body {
-                    self.out.push('\n');
-                    if !l.is_empty() {
-                        self.out.push_str(&pad);
-                        self.out.push_str(l);
-                    }
-                }
-                if head.ends_with('+') {
-                    self.out.push('\n');
-                }
+                let half = self.r.chance(1, 2);
+                let s = gen_block_scalar(self.r, ind, half);
+                self.out.push_str(&s);
             }
         }
     }
@@ -891,7 +938,7 @@ impl<'a> DocGen<'a> {
     /// A block node whose first line starts at the current position; following lines at `ind`.
     fn node(&mut self, ind: usize, depth: usize, coll: bool) {
         let pad = " ".repeat(ind);
-        let kind = if coll { self.r.below(5) } else if depth >= 3 || self.budget <= 0 { 9 } else { self.r.below(10) };
+        let kind = if coll { self.r.below(5) } else if depth >= 4 || self.budget <= 0 { 9 } else { self.r.below(10) };
         match kind {
             0..=2 => {
                 // mapping
@@ -925,7 +972,7 @@ impl<'a> DocGen<'a> {
                     }
                     self.out.push('-');
                     // compact nested node or scalar
-                    if self.r.chance(1, 3) && depth < 3 {
+                    if self.r.chance(1, 3) && depth < 4 {
                         self.out.push(' ');
                         self.node(ind + 2, depth + 1, true);
                     } else {
@@ -943,7 +990,7 @@ impl<'a> DocGen<'a> {
 
     /// After `key:` — either an inline value or a nested block on following lines.
     fn value(&mut self, ind: usize, depth: usize) {
-        match if depth >= 3 { 0 } else { self.r.below(8) } {
+        match if depth >= 4 { 0 } else { self.r.below(8) } {
             0..=3 => {
                 self.out.push(' ');
                 self.scalar(ind, true);
@@ -1068,9 +1115,93 @@ fn gen_prog(r: &mut Rng) -> String {
         9 => format!(".zz = {{{}: {}}}", adv(r), adv(r)),
         10 => format!("{} = [{}, {}]", path(r), adv(r), adv(r)),
         11 => format!("{} |= . * {{\"q\": {}}}", path(r), adv(r)),
-        12 => ".new = 1".to_string(),
+        12 => (*r.pick(&[".new = 1", ".m0", ".m0.m1", ".l0", ".l0[0]", ".m0.m1.m2", ".s0", ".m0 | .", ".c = \"x\"", "del(.c)"])).to_string(),
         _ => format!("{} = 2", path(r)),
     }
+}
+
+/// A block scalar (header and content lines, no final line break) for a node whose parent line is
+/// indented `n`: literal or folded × strip/clip/keep × explicit indentation indicator 1–9 or none;
+/// content: 0–3 leading blank lines, a first non-blank line with 0–4 extra leading spaces (only
+/// with an indicator), interior more-indented lines, blank lines, 0–3 trailing blank lines.
+fn gen_block_scalar(r: &mut Rng, n: usize, simple: bool) -> String {
+    let style = *r.pick(&["|", ">"]);
+    let chomp = *r.pick(&["", "-", "+"]);
+    let digit: Option<usize> = if simple || r.chance(1, 2) { None } else { Some(r.range(1, 9) as usize) };
+    let base = n + digit.unwrap_or(*r.pick(&[1usize, 2, 2, 3, 4]));
+    let mut s = String::from(style);
+    // indicator order: digit then chomping, or chomping then digit (both legal)
+    match (digit, r.chance(1, 4)) {
+        (Some(d), false) => s.push_str(&format!("{d}{chomp}")),
+        (Some(d), true) => s.push_str(&format!("{chomp}{d}")),
+        (None, _) => s.push_str(chomp),
+    }
+    let lead = if simple { 0 } else { r.below(4) };
+    for _ in 0..lead {
+        s.push('\n');
+        // a leading blank line may carry spaces up to the content indentation
+        if r.chance(1, 4) {
+            s.push_str(&" ".repeat(r.usize_below(base + 1)));
+        }
+    }
+    let words = ["foo", "bar", "0x1F", "x: y", "x #c", "- i", "a b", "é", "tab\there", "-", "'q'", "\"d\""];
+    let first_extra = if digit.is_some() { r.below(5) as usize } else { 0 };
+    let nlines = if !simple && r.chance(1, 12) { 0 } else { r.range(1, 4) as usize };
+    for i in 0..nlines {
+        s.push('\n');
+        if i > 0 && r.chance(1, 5) {
+            continue; // interior blank line
+        }
+        let extra = if i == 0 { first_extra } else { *r.pick(&[0usize, 0, 0, 1, 2, 4]) };
+        s.push_str(&" ".repeat(base + extra));
+        let w: &str = words[r.usize_below(words.len())];
+        s.push_str(w);
+        if r.chance(1, 12) {
+            s.push(' '); // trailing space: disqualifies block style on re-emission
+        }
+    }
+    let trail = if simple { 0 } else { r.below(4) };
+    for _ in 0..trail {
+        s.push('\n');
+    }
+    s
+}
+
+/// A small document built around block scalars: at nesting depth 0–4 under mappings and/or as
+/// sequence items, followed by a sibling so that the scalar's end is delimited.
+fn gen_block_scalar_doc(r: &mut Rng) -> String {
+    let depth = r.below(5) as usize;
+    let mut out = String::new();
+    let mut ind = 0usize;
+    for d in 0..depth {
+        let step = *r.pick(&[2usize, 2, 2, 1, 3, 4]);
+        if r.chance(1, 3) {
+            // sequence level: `key:` then `- ` items one step deeper (or at the same column)
+            out.push_str(&format!("{}l{d}:\n", " ".repeat(ind)));
+            let seq_ind = if r.chance(1, 3) { ind } else { ind + step };
+            out.push_str(&format!("{}- h{d}: 1\n", " ".repeat(seq_ind)));
+            ind = seq_ind + 2;
+        } else {
+            out.push_str(&format!("{}m{d}:\n", " ".repeat(ind)));
+            ind += step;
+        }
+    }
+    let pad = " ".repeat(ind);
+    let n_entries = r.range(1, 3);
+    for e in 0..n_entries {
+        if r.chance(1, 3) {
+            // as sequence items under a key
+            out.push_str(&format!("{pad}s{e}:\n"));
+            let items = r.range(1, 2);
+            for _ in 0..items {
+                out.push_str(&format!("{pad}- {}\n", gen_block_scalar(r, ind, false)));
+            }
+        } else {
+            out.push_str(&format!("{pad}a{e}: {}\n", gen_block_scalar(r, ind, false)));
+        }
+    }
+    out.push_str(&format!("{pad}c: after\n"));
+    out
 }
 
 /// Does the JSON text at `j[*ji..]` denote the mapping encoded at `e[*ei..]` (entries up to `]`)?
@@ -1287,12 +1418,26 @@ pub fn gen(tier: Tier, r: &mut Rng, emit: &mut dyn FnMut(String)) {
             emit(format!("C15 ssv {} {st} {}", hx(&doc), hx(&dec)));
         }
     }
+    let n_sbl = if quick { 1500 } else { 30_000 };
+    for _ in 0..n_sbl {
+        let doc = format!("k: {}\nc: after\n", gen_block_scalar(r, 0, false));
+        // (a content-less scalar with an explicit indicator makes the loader drop the next entry —
+        // a loader-side defect, C14 domain; such documents are not used here)
+        if !load_json(doc.as_bytes()).is_ok_and(|j| j.contains("\"c\":\"after\"")) {
+            continue;
+        }
+        if let Some((st, dec)) = src_scalar(doc.as_bytes()) {
+            if st == "l" || st == "f" {
+                emit(format!("C15 sbl {} {} {st} {}", hx(&doc), r.below(9), hx(&dec)));
+            }
+        }
+    }
     let n_docs = if quick { 1200 } else { 15_000 };
     let mut docs: Vec<String> = Vec::new();
     let mut tries = 0;
     while docs.len() < n_docs && tries < n_docs * 4 {
         tries += 1;
-        let d = gen_doc(r);
+        let d = if tries % 3 == 0 { gen_block_scalar_doc(r) } else { gen_doc(r) };
         if load_json(d.as_bytes()).is_ok() {
             docs.push(d);
         }
